@@ -118,13 +118,13 @@ private def demoProg : SStmt :=
 
 example : Wf [.int] demoProg := by
   refine ⟨⟨rfl, trivial, trivial⟩, ⟨⟨Nat.zero_lt_one, trivial⟩, ?_, ?_⟩, trivial⟩
-  · exact numericCond_of_rel _ _ _ _ _ (.inl rfl)
+  · exact fun env _ => numericCond_of_rel _ _ _ _ _ (.inl rfl) env
   · exact ⟨⟨Nat.zero_lt_one, trivial⟩, ⟨rfl, ⟨Nat.zero_lt_one, trivial⟩, rfl, trivial, .inr rfl⟩, trivial⟩
 
 /-- the premise of `C01_core_correct` is satisfiable: the demo program is a well-formed core program -/
 example : WfTop [.int] demoProg := by
   refine ⟨⟨rfl, trivial, trivial⟩, ⟨⟨Nat.zero_lt_one, trivial⟩, ?_, ?_⟩, trivial⟩
-  · exact numericCond_of_rel _ _ _ _ _ (.inl rfl)
+  · exact fun env _ => numericCond_of_rel _ _ _ _ _ (.inl rfl) env
   · exact ⟨⟨Nat.zero_lt_one, trivial⟩, ⟨rfl, ⟨Nat.zero_lt_one, trivial⟩, rfl, trivial, .inr rfl⟩, trivial⟩
 
 end RbThm.C01Sim
